@@ -185,3 +185,10 @@ def run(ctx):
     nw = any(s.rv.k == "agg" and s.rv.j.get("variant") == "NotWorld" for s in res.stmts())
     ctx.ob("R11.3", "non-world-target", nw, "a target that is not a world is an error" if nw else "non-world targets are not rejected", site=res.span)
     c07.check_cross_kind(c01.ctx_alias(ctx, "R11.4"))
+    # the checker compares *decoded* types: the conformance verdict is only as good as the decode tables and the checker's
+    # notion of equality (C08 R08.2 primitive rows, C07 R07.7), recorded under R11.4
+    import tables, engine
+    fns = [f for f in db.fns.values() if f.crate == "wac_types" and not f.from_expansion]
+    tables.check_enum_tables(engine.AliasCtx(ctx, {"R08.2": "R11.4"}), "R08.2", fns,
+                             only=lambda e1, e2: "Primitive" in e1 and "Primitive" in e2)
+    c07.check_ordered_equality(engine.AliasCtx(ctx, {"R07.7": "R11.4"}), c07.checker_fns(db))
